@@ -11,7 +11,7 @@ def gen(args):
     from harness import pcovr as P
     rng = np.random.default_rng([sd, wid, 1414])
     out = []
-    for t in range(ncases):
+    for t in core.timed(range(ncases)):
         n, m = int(rng.integers(4, 9)), int(rng.integers(2, 6))
         Xi = P.centred_lattice(rng, n, m, 4, "lowrank" if rng.random() < 0.2 else "full")
         p = int(rng.integers(1, 3))
